@@ -26,25 +26,52 @@ impl MetricSink for Rec {
 
 const KEY: &str = "some.key";
 
+// argument expressions with a visible side effect: how often the macro evaluates each of them is observable, and tag
+// values can be switched to the empty string (a legal tag value)
+static EVALS: [std::sync::atomic::AtomicUsize; 6] = [const { std::sync::atomic::AtomicUsize::new(0) }; 6];
+static EMPTY_TAG_VALUES: std::sync::atomic::AtomicBool = std::sync::atomic::AtomicBool::new(false);
+
+fn bump(i: usize) {
+    EVALS[i].fetch_add(1, std::sync::atomic::Ordering::SeqCst);
+}
+fn a_key() -> &'static str {
+    bump(0);
+    KEY
+}
+fn a_tk(i: usize) -> &'static str {
+    bump(if i == 1 { 2 } else { 4 });
+    if i == 1 { "k1" } else { "k2" }
+}
+fn a_tv(i: usize) -> &'static str {
+    bump(if i == 1 { 3 } else { 5 });
+    if EMPTY_TAG_VALUES.load(std::sync::atomic::Ordering::SeqCst) {
+        ""
+    } else if i == 1 {
+        "v1"
+    } else {
+        "v2"
+    }
+}
+
 macro_rules! both {
     ($mac:ident, $meth:ident, $val:expr, $nt:expr, $refside:expr) => {{
         if $refside {
             let c = cadence_macros::get_global_default().unwrap();
             match $nt {
-                0 => c.$meth(KEY, $val).send(),
-                1 => c.$meth(KEY, $val).with_tag("k1", "v1").send(),
-                _ => c.$meth(KEY, $val).with_tag("k1", "v1").with_tag("k2", "v2").send(),
+                0 => c.$meth(a_key(), { bump(1); $val }).send(),
+                1 => c.$meth(a_key(), { bump(1); $val }).with_tag(a_tk(1), a_tv(1)).send(),
+                _ => c.$meth(a_key(), { bump(1); $val }).with_tag(a_tk(1), a_tv(1)).with_tag(a_tk(2), a_tv(2)).send(),
             }
         } else {
             match $nt {
                 0 => {
-                    $mac!(KEY, $val);
+                    $mac!(a_key(), { bump(1); $val });
                 }
                 1 => {
-                    $mac!(KEY, $val, "k1" => "v1");
+                    $mac!(a_key(), { bump(1); $val }, a_tk(1) => a_tv(1));
                 }
                 _ => {
-                    $mac!(KEY, $val, "k1" => "v1", "k2" => "v2");
+                    $mac!(a_key(), { bump(1); $val }, a_tk(1) => a_tv(1), a_tk(2) => a_tv(2));
                 }
             }
         }
@@ -97,7 +124,7 @@ pub fn replay(sc: &Value) -> Value {
         // this thread uses the macro before any client is set (documented panic) ...
         let _ = catch_unwind(AssertUnwindSafe(|| call(mac, vty, nt, false)));
     }
-    let mut out = vec![];
+    let mut out: Vec<(bool, Vec<String>, Vec<String>)> = vec![];
     // ... then (or from the start) a failing and an accepting sink, one process-wide client: the failing one is what shows lost error reports
     let lines = Arc::new(Mutex::new(vec![]));
     let handled: Arc<Mutex<Vec<String>>> = Arc::new(Mutex::new(vec![]));
@@ -112,19 +139,36 @@ pub fn replay(sc: &Value) -> Value {
         // a later set is documented as a no-op: the first client stays the global default
         cadence_macros::set_global_default(StatsdClient::from_sink("second", Rec { lines: Arc::new(Mutex::new(vec![])), fail: false }));
     }
-    for refside in [false, true] {
-        lines.lock().unwrap().clear();
-        handled.lock().unwrap().clear();
-        let r = catch_unwind(AssertUnwindSafe(|| call(mac, vty, nt, refside)));
-        out.push((r.is_ok(), lines.lock().unwrap().clone(), handled.lock().unwrap().clone()));
-    }
-    if !out[0].0 {
-        viol.push(json!({"prop": "C17", "clause": "panics-iff-unset", "detail": "the macro panicked although a global client is set"}));
-    }
-    if out[0] != out[1] {
-        viol.push(json!({"prop": "C17", "clause": "same-as-tagged-quiet-send", "detail": format!(
-            "statsd_{}!({}, {} tags) on a refusing sink: macro -> emits {:?}, handler calls {:?}; tagged quiet send -> emits {:?}, handler calls {:?}",
-            mac, vty, nt, out[0].1, out[0].2, out[1].1, out[1].2)}));
+    for empty in [false, true] {
+        if empty && nt == 0 {
+            continue;
+        }
+        EMPTY_TAG_VALUES.store(empty, std::sync::atomic::Ordering::SeqCst);
+        out.clear();
+        let mut evals = vec![];
+        for refside in [false, true] {
+            lines.lock().unwrap().clear();
+            handled.lock().unwrap().clear();
+            for e in EVALS.iter() {
+                e.store(0, std::sync::atomic::Ordering::SeqCst);
+            }
+            let r = catch_unwind(AssertUnwindSafe(|| call(mac, vty, nt, refside)));
+            out.push((r.is_ok(), lines.lock().unwrap().clone(), handled.lock().unwrap().clone()));
+            evals.push(EVALS.iter().map(|e| e.load(std::sync::atomic::Ordering::SeqCst)).collect::<Vec<_>>());
+        }
+        if !out[0].0 {
+            viol.push(json!({"prop": "C17", "clause": "panics-iff-unset", "detail": "the macro panicked although a global client is set"}));
+        }
+        if out[0] != out[1] {
+            viol.push(json!({"prop": "C17", "clause": "same-as-tagged-quiet-send", "detail": format!(
+                "statsd_{}!({}, {} tags{}) on a refusing sink: macro -> emits {:?}, handler calls {:?}; tagged quiet send -> emits {:?}, handler calls {:?}",
+                mac, vty, nt, if empty { ", empty tag values" } else { "" }, out[0].1, out[0].2, out[1].1, out[1].2)}));
+        }
+        if out[0].0 && evals[0] != evals[1] {
+            viol.push(json!({"prop": "C17", "clause": "same-as-tagged-quiet-send", "detail": format!(
+                "statsd_{}!({}, {} tags): argument expressions (key, value, tag keys/values) were evaluated {:?} times by the macro, {:?} times by the reference call chain",
+                mac, vty, nt, evals[0], evals[1])}));
+        }
     }
     json!({"violations": viol})
 }
